@@ -29,7 +29,7 @@
     html_event_kinds
     entity_table_resolves xml_html_entities_resolve merged_forest_is_normal
     open_tags_is_nesting_stack delivered_is_prefix_of_unbatched
-    handle_pi_total handle_pi_shape handle_pi_fields handle_pi_takes_one_qmark
+    handle_pi_total handle_pi_shape handle_pi_fields handle_pi_takes_one_qmark html_decl_ignored
 -/
 import Genshi.Lemmas.ParseHtml
 import Genshi.Lemmas.ParseXml
@@ -41,6 +41,7 @@ import Genshi.Lemmas.ParseKinds
 import Genshi.Lemmas.ParseState
 import Genshi.Lemmas.ParseEnv
 import Genshi.Lemmas.ParsePi
+import Genshi.Lemmas.ParseDecl
 namespace Genshi.Props.C07
 open Genshi Genshi.Parse
 
@@ -844,6 +845,28 @@ example : AllSp [Char.ofNat 160] ∧ NoSp ['p','h','p'] ∧ AllSp [' ', Char.ofN
 
 /-- non-vacuity of `handle_pi_shape` -/
 example : piEvent ['a',' ','b',' ','c',' ','?'] = .pi ['a'] ['b',' ','c'] ∧ NoSp ['a'] ∧ ¬ NoSp ['b',' ','c'] := by decide
+
+/-! ## `handle_decl` / `unknown_decl` (wave 4, package parse2) -/
+
+/-- **html_decl_ignored.** DOCTYPE declarations and marked sections (`<![CDATA[…]]>`, `<![if …]>`: the callbacks
+    `handle_decl` / `unknown_decl`, which genshi does not override) enqueue nothing and leave `_open_tags` alone; taking
+    them out of the callback sequence — wherever they stand, in any read or in the `close()` batch — changes nothing: the
+    same events are delivered (text on both sides of a marked section is one TEXT event), the same exception is raised,
+    and a lazy consumer has received the same events before a failure. -/
+theorem html_decl_ignored (env : Env) (reads : List HtmlRead) (close : List (Item HtmlCb)) :
+    (∀ o s, htmlStep env o (.decl s) = .ok (o, [])) ∧
+    htmlParse env (reads.map dropDecl) (close.filter notDecl) = htmlParse env reads close := by
+  refine ⟨fun _ _ => rfl, ?_⟩
+  simp only [htmlParse, parse, generate_dropDecl]
+
+/-- non-vacuity: `<!DOCTYPE html><p>a<![CDATA[x]]>b` — the two texts around the marked section arrive as one -/
+example :
+    let env : Env := ⟨fun v => .ok v, asciiLower, Genshi.Gen.Output.parserEmptyElems⟩
+    let reads : List HtmlRead := [.text [.cb (.decl ['D']), .cb (.starttag ['p'] []), .cb (.data ['a'])],
+                                  .text [.cb (.decl ['C']), .cb (.data ['b'])]]
+    (reads.map dropDecl).map (fun r => match r with | .text l => l.length | _ => 0) = [2, 1] ∧
+    htmlParse env reads [] = ([.start ⟨[], ['p']⟩ [], .text ['a', 'b'] false, .end_ ⟨[], ['p']⟩], none) := by
+  decide
 
 /-- `handle_charref` / `handle_entityref`: `&#65;`, `&#x41;`, out of range, `&nbsp;`, an unknown name -/
 example : charrefText ['6','5'] = .ok ['A'] ∧ charrefText ['x','4','1'] = .ok ['A'] ∧
